@@ -230,6 +230,15 @@ impl PoolEntry {
 			bail!("`Dynamic` pool entry has more than {MAX_DYNAMIC_NODES} (nested) `Dynamic` bootstrap arguments, at bootstrap method index {bootstrap_method_attribute_index:?}");
 		}
 		pool.dynamic_nodes.set(nodes);
+		// Every use of a constant (each `ldc`, each bootstrap argument of an `invokedynamic`) stores its own copy of the tree:
+		// the nested entries are also counted over the whole class file.
+		if depth > 0 {
+			let total = pool.dynamic_nested_total.get() + 1;
+			if total > MAX_DYNAMIC_NESTED_TOTAL {
+				bail!("the `Dynamic` pool entries of this class have more than {MAX_DYNAMIC_NESTED_TOTAL} nested `Dynamic` bootstrap arguments in total, at bootstrap method index {bootstrap_method_attribute_index:?}");
+			}
+			pool.dynamic_nested_total.set(total);
+		}
 		pool.dynamic_depth.set(depth + 1);
 		let arguments: Result<Vec<Loadable>> = (|| {
 			let mut vec = Vec::with_capacity(method.arguments.len());
@@ -304,6 +313,8 @@ impl PoolEntry {
 const MAX_DYNAMIC_DEPTH: usize = 64;
 /// Limits how many `Dynamic` entries one `Dynamic` entry may have as (nested) bootstrap arguments in total.
 const MAX_DYNAMIC_NODES: usize = 1 << 12;
+/// Limits how many nested `Dynamic` bootstrap arguments all the uses of `Dynamic` entries in one class file may have in total.
+const MAX_DYNAMIC_NESTED_TOTAL: usize = 1 << 16;
 
 pub(crate) struct PoolRead {
 	/// We store a [`None`] for the zero index, as well as for the upper indices of [`PoolEntry::Double`] and [`PoolEntry::Long`].
@@ -312,6 +323,8 @@ pub(crate) struct PoolRead {
 	dynamic_depth: Cell<u16>,
 	/// How many `Dynamic` entries were resolved so far below the outermost one being resolved right now.
 	dynamic_nodes: Cell<usize>,
+	/// How many `Dynamic` entries were resolved so far as (nested) bootstrap arguments, over all uses in this class file.
+	dynamic_nested_total: Cell<usize>,
 }
 
 impl PoolRead {
@@ -422,7 +435,7 @@ impl PoolRead {
 			};
 		}
 
-		Ok(PoolRead { inner: pool, dynamic_depth: Cell::new(0), dynamic_nodes: Cell::new(0) })
+		Ok(PoolRead { inner: pool, dynamic_depth: Cell::new(0), dynamic_nodes: Cell::new(0), dynamic_nested_total: Cell::new(0) })
 	}
 
 	fn get(&self, index: u16) -> Result<&PoolEntry> {
